@@ -1,16 +1,16 @@
-import MaltModel.Py.SexpAst
+import MaltModel.Conv.SexpTotal
 import MaltModel.Conv.TemplateHyp
 import MaltModel.Conv.SrcClass
 import MaltModel.Generated.Templates
 /- Driver handlers for the C17 correspondence and the verified context checker (glue only). -/
 namespace Malt.Drv.C17
-open Malt Malt.Py Malt.Conv Malt.Conv.Template
+open Malt Malt.Py Malt.Conv Malt.Conv.Template Malt.Conv.SexpTotal
 
 def binding? : Sexp → Option Binding
-  | .list [.atom "node", e] => (parseExpr e).map .node
-  | .list (.atom "nodes" :: es) => (es.mapM parseExpr).map .nodes
-  | .list [.atom "stmt", s] => (parseStmt s).map .stmt
-  | .list (.atom "stmts" :: ss) => (ss.mapM parseStmt).map .stmts
+  | .list [.atom "node", e] => (readE e).map .node
+  | .list (.atom "nodes" :: es) => (readEs es).map .nodes
+  | .list [.atom "stmt", s] => (readS s).map .stmt
+  | .list (.atom "stmts" :: ss) => (readSs ss).map .stmts
   | _ => none
 
 def bindings? : Sexp → Option Bindings
@@ -38,45 +38,50 @@ def dupAndShared (ls : List Nat) (b : Bindings) : Sexp :=
 def handlers : List (String × (List Sexp → String)) := [
   -- (ctxOk)   c17.ctxok <stmt>...
   ("c17.ctxok", fun a => run do
-      let ss ← a.mapM parseStmt
+      let ss ← readSs a
       pure (toString (Sexp.ofBool (ctxOk ss)))),
   -- which top-level statements / first-level children fail (diagnostics)
   ("c17.ctxbad", fun a => run do
-      let ss ← a.mapM parseStmt
+      let ss ← readSs a
       pure (toString (Sexp.list ((ss.filter fun s => !okS s).map fun s => Sexp.ofNat s.id)))),
   -- c17.inst (<template stmts>) (<bindings>)  ->  (ok (<stmts>) tmplOk bindingsWf usesOk argsOk resultCtxOk (dups) (shared)) | (err kind ...)
   ("c17.inst", fun a => run do
       let [.list ts, bs] := a | none
-      let t ← ts.mapM parseStmt
+      let t ← readSs ts
       let b ← bindings? bs
       match instantiate t b with
-      | .ok r => pure (toString (Sexp.list ([.atom "ok", stmtsToSexp r] ++ flags t b ++ [Sexp.ofBool (ctxOk r), dupAndShared (labelsSs r) b])))
+      | .ok r => pure (toString (Sexp.list ([.atom "ok", Sexp.list (printSs r)] ++ flags t b ++ [Sexp.ofBool (ctxOk r), dupAndShared (labelsSs r) b])))
       | .error e => pure (toString (Sexp.list ([.atom "err", .atom (errName e)] ++ flags t b)))),
   ("c17.instexpr", fun a => run do
       let [.list ts, bs] := a | none
-      let t ← ts.mapM parseStmt
+      let t ← readSs ts
       let b ← bindings? bs
       match instantiateExpr t b with
-      | .ok r => pure (toString (Sexp.list ([.atom "ok", r.toSexp] ++ flags t b ++ [Sexp.ofBool (okE .load r), dupAndShared (labelsE r) b])))
+      | .ok r => pure (toString (Sexp.list ([.atom "ok", printE r] ++ flags t b ++ [Sexp.ofBool (okE .load r), dupAndShared (labelsE r) b])))
       | .error e => pure (toString (Sexp.list ([.atom "err", .atom (errName e)] ++ flags t b)))),
   ("c17.instbare", fun a => run do
       let [.list ts, bs] := a | none
-      let t ← ts.mapM parseStmt
+      let t ← readSs ts
       let b ← bindings? bs
       match instantiateBare t b with
-      | .ok r => pure (toString (Sexp.list ([.atom "ok", r.toSexp] ++ flags t b ++ [Sexp.ofBool (okE .load r), dupAndShared (labelsE r) b])))
+      | .ok r => pure (toString (Sexp.list ([.atom "ok", printE r] ++ flags t b ++ [Sexp.ofBool (okE .load r), dupAndShared (labelsE r) b])))
       | .error e => pure (toString (Sexp.list ([.atom "err", .atom (errName e)] ++ flags t b)))),
   -- finding classes decided on the SOURCE function
   ("c17.srcclass", fun a => run do
       let [x] := a | none
-      let s ← parseStmt x
+      let s ← readS x
       pure (toString (Sexp.list [Sexp.ofBool (Malt.Conv.SrcClass.hasStoreListDisplay s),
                                  Sexp.ofBool (Malt.Conv.SrcClass.appendInExprPosition s)]))),
+  -- echo through the verified reader/printer pair (serialisation self-test on every real tree)
+  ("c17.echo", fun a => run do
+      let [x] := a | none
+      let s ← readS x
+      pure (toString (printS s))),
   -- the generated table
   ("c17.tmpl", fun a => run do
       let [.atom nm] := a | none
       let p ← Malt.Gen.allTemplates.find? (fun p => p.1 == nm)
-      pure (toString (Sexp.list [stmtsToSexp p.2.1, Sexp.ofStrs p.2.2]))),
+      pure (toString (Sexp.list [Sexp.list (printSs p.2.1), Sexp.ofStrs p.2.2]))),
   ("c17.sites", fun _ => toString (Sexp.list (Malt.Gen.templateSites.map fun (n, f, l1, l2, e) =>
       Sexp.list [.atom n, .atom f, Sexp.ofNat l1, Sexp.ofNat l2, Sexp.ofBool e]))),
   ("c17.unresolved", fun _ => toString (Sexp.ofStrs Malt.Gen.unresolvedSites))
